@@ -78,7 +78,9 @@ int c_aggregate(int nval, int operator, int maxnan, int * aggindex,
                 agg = (nagg == 1 || inp > agg) ? inp : agg;
         }
         else if (operator == 3){
-            agg = inp;
+            /* tail: last non-missing value of the group */
+            if(isvalid)
+                agg = inp;
         }
     }
 
